@@ -614,13 +614,16 @@ class Interp:
     def mem_key(self, idx):
         if idx.kind == "int" and idx.aff is not None:
             return idx.aff.pretty()
-        return f"?v{getattr(idx, 'vid', id(idx))}"
+        return "?"
 
     def mem_read(self, mem, idx):
         k = self.mem_key(idx)
         self.events.append(Event("mem", self.call_stack[-1] if self.call_stack else "?", -1, self.cur_line, op="r", idx=idx, key=k, stack=tuple(self.call_stack)))
         if k in mem.cells:
             return mem.cells[k][1], mem
+        if k.startswith("?"):
+            # address without an exact form: some byte of memory (not remembered: no identity to key it by)
+            return IntV.top("u8", (mem.havoc or frozenset()) | idx.deps() | frozenset({("mem[?]", 0)}), exact=True), mem
         if mem.havoc is not None:
             v = IntV.top("u8", mem.havoc | idx.deps())
         else:
@@ -632,9 +635,12 @@ class Interp:
     def mem_write(self, mem, idx, val):
         k = self.mem_key(idx)
         self.events.append(Event("mem", self.call_stack[-1] if self.call_stack else "?", -1, self.cur_line, op="w", idx=idx, key=k, val=val, stack=tuple(self.call_stack)))
-        cells = dict(mem.cells)
         if val.kind != "int":
             val = IntV.top("u8", val.deps())
+        if k.startswith("?"):
+            # store through an address without an exact form: it may hit any cell
+            return MemV({}, (mem.havoc or frozenset()) | val.deps() | idx.deps() | mem.deps())
+        cells = dict(mem.cells)
         cells[k] = (idx, val)
         return MemV(cells, mem.havoc)
 
